@@ -260,7 +260,9 @@ class StmtMixin:
                             ok = ops.dict_has(base, idx)
                             tt, ff = self.fork(s2, ok)
                             if tt is not None:
-                                nxt += self.assign(t.value, ops.dict_del(base, idx), tt, fr)
+                                newd = ops.dict_del(base, idx)
+                                self.fold_update(tt, fr, base, newd, idx, None)
+                                nxt += self.assign(t.value, newd, tt, fr)
                             if ff is not None:
                                 nxt.append(self.exc_out(ff, ExcVal('KeyError')))
                         else:
@@ -307,7 +309,10 @@ class StmtMixin:
         """Evaluate, giving empty-container constructors a declared kind."""
         if hint is not None and self.is_empty_ctor(e):
             if isinstance(hint, (KList, KDict, KSet, KCounter)):
-                return [(st, ops.empty_of(hint))]
+                e0 = ops.empty_of(hint)
+                if isinstance(hint, KDict):
+                    self.fold_empty(st, e0)
+                return [(st, e0)]
         outs = self.ev(e, st, fr)
         if hint is not None:
             res = []
@@ -415,7 +420,9 @@ class StmtMixin:
         k = ops.kind_of(base)
         if isinstance(k, KDict):
             v2 = self.coerce_to(st, v, k.val)
-            return self.assign(base_expr, ops.dict_set(base, idx, v2), st, fr)
+            new = ops.dict_set(base, idx, v2)
+            self.fold_update(st, fr, base, new, idx, v2)
+            return self.assign(base_expr, new, st, fr)
         if isinstance(k, KCounter):
             kt = ops.key_term(idx, k.key)
             return self.assign(base_expr, SVal(k, [z3.Store(base.t[0], kt, lift(v, KInt).z)]), st, fr)
